@@ -664,6 +664,12 @@ def run(ctx, report):
     if n_shared == 0:
         raise AnalysisError('no module-level instance with run-time methods found (x86mndb = x86allmncs() expected)')
 
+    R14 = report.rule('C12.D14', 'a decode that finds no instruction leaves the stream it was given at the offset it had (also at offset 0): repeating the call gives the same answer '
+                      '(shared with C10.D4; the restoring entry point is evaluated for a stream at offset 0 and at offset 5)', floor=1)
+    from .c10 import dis_rewind_rule
+    arch14 = ctx.mod('ia32_arch')
+    dis_rewind_rule(ctx, R14, arch14, arch14.method('x86_mn', '_dis'))
+
     R13 = report.rule('C12.D13', 'a function whose results are cached (functools.lru_cache / cache, memoize decorators) hands out the same object for the same argument: no caller edits '
                       'such a result (directly, as element of a list of results, or through a loop variable)', floor=1)
     memoised_results_rule(R13, mods)
